@@ -100,28 +100,66 @@ def gen_conv_cases(rng, tier, space, channel, signed_bcoh=False, force_pos=False
                     idt[2] = True
             cases.append({
                 "space": space, "X": a, "Y": b, "x": x, "y": y, "dy": dy, "mat": m, "channel": channel, "int_dtype": idt,
+                "callform": "kw" if (dy is not None and rep % 3 == 1) else "pos",
                 "desc": {"method": "%s_to_%s" % (names[a], names[b]), "n": n, "grid": gk, "values": vk,
                          "dy": dk, "has_zero": any(v == 0 for v in x), "has_neg": any(v < 0 for v in x), "int_arrays": "".join("1" if t else "0" for t in idt),
-                         "bcoh_neg": m["bcoh"] < 0},
+                         "bcoh_neg": m["bcoh"] < 0, "uncertainty_by_keyword": bool(dy is not None and rep % 3 == 1)},
             })
     return cases
 
 
-def call_conv(pystog, space, a, b, x, y, dy, m, idt=(False, False, False)):
+# the documented name of the uncertainty parameter of each conversion / named transform (pinned public signatures)
+def unc_kw(name):
+    src = name.split("_to_")[0]
+    if src == "DCS":
+        return "ddcs"
+    if src == "FK":
+        return "dfq" if name == "FK_to_DCS" else "dfq_keen"
+    if src == "F":
+        return "dfq"
+    if src == "S":
+        return "dsq"
+    return "dgr"
+
+
+def call_conv(pystog, space, a, b, x, y, dy, m, idt=(False, False, False), cv=None, callform="pos"):
     names = RN if space == 0 else GN
-    cv = pystog.Converter()
-    f = getattr(cv, "%s_to_%s" % (names[a], names[b]))
+    cv = cv or pystog.Converter()
+    name = "%s_to_%s" % (names[a], names[b])
+    f = getattr(cv, name)
     x = np.array(x, dtype=np.int64 if idt[0] else float)
     y = np.array(y, dtype=np.int64 if idt[1] else float)
     d = None if dy is None else np.array(dy, dtype=np.int64 if idt[2] else float)
-    v, e = f(x, y, d, **kwargs_of(m))
+    if callform == "kw" and d is not None:
+        v, e = f(x, y, **dict(kwargs_of(m), **{unc_kw(name): d}))
+    else:
+        v, e = f(x, y, d, **kwargs_of(m))
     return v, e
 
 
 def run_conv(pystog, case):
-    v, e = call_conv(pystog, case["space"], case["X"], case["Y"], case["x"], case["y"], case["dy"], case["mat"], case.get("int_dtype", (False, False, False)))
-    return {"val": None if v is None else [float(t) for t in np.asarray(v, dtype=float)],
-            "err": None if e is None else [float(t) for t in np.asarray(e, dtype=float)]}
+    """the conversion is made on a Converter object that has been used before (reuse.prime), and the object is used again
+    afterwards (reuse.hold)"""
+    from . import reuse
+    cv = pystog.Converter()
+    names = RN if case["space"] == 0 else GN
+    what = "%s_to_%s" % (names[case["X"]], names[case["Y"]])
+    idt = case.get("int_dtype", (False, False, False))
+    alt_y, alt_d = reuse.alt_data(case["y"])
+
+    def call(alt, with_dy):
+        if alt:
+            return call_conv(pystog, case["space"], case["X"], case["Y"], case["x"], alt_y, alt_d if with_dy else None, case["mat"], cv=cv)
+        return call_conv(pystog, case["space"], case["X"], case["Y"], case["x"], case["y"], case["dy"], case["mat"], idt, cv=cv,
+                         callform=case.get("callform", "pos"))
+    reuse.prime(call)
+    v, e = call(False, None)
+    res = {"val": None if v is None else [float(t) for t in np.asarray(v, dtype=float)],
+           "err": None if e is None else [float(t) for t in np.asarray(e, dtype=float)]}
+    msg = reuse.hold(call, (v, e), what)
+    if msg:
+        res["reuse_error"] = msg
+    return res
 
 
 def conv_to_coq(case, res):
